@@ -1,6 +1,7 @@
 package checks
 
 import (
+	"context"
 	"encoding/json"
 	"fmt"
 	"math"
@@ -10,10 +11,14 @@ import (
 	"sort"
 	"strings"
 	"sync"
+	"time"
 
 	"github.com/DataDog/datadog-traceroute/result"
+	"github.com/DataDog/datadog-traceroute/traceroute"
 
+	"verif/harness/drive"
 	"verif/harness/fw"
+	"verif/harness/refmatch"
 )
 
 func init() { register("C16", checkC16) }
@@ -333,7 +338,7 @@ func checkC16() fw.Check {
 	return fw.Check{
 		Prop:  "C16",
 		Level: "exploration",
-		Rule: "generated result documents (0..k runs of >=1 hop; hop addresses nil/empty/4-byte/16-byte-mapped/IPv6; RTT samples from a boundary value set incl. all-zero, single-sample, equal values, denormal, huge, and random) are passed through the real Results.Normalize(); an oracle with reference computations checks reachable<=>address, hop-count min<=avg<=max within [1,max run length], sent/received/loss, RTT min/max exactly, avg and jitter within [min,max] / [0,max-min] up to floating-point rounding of the mean (8n+8 ulp), permutation invariance of the order-insensitive statistics (all permutations for <=6 samples, 20 shuffles beyond), fresh pairwise-distinct ids over the whole check, the published JSON key-path set, and decode(encode(doc)) == doc. " +
+		Rule: "generated result documents (0..k runs of >=1 hop; hop addresses nil/empty/4-byte/16-byte-mapped/IPv6; RTT samples from a boundary value set incl. all-zero, single-sample, equal values, denormal, huge, and random) are passed through the real Results.Normalize(); an oracle with reference computations checks reachable<=>address, hop-count min<=avg<=max within [1,max run length], sent/received/loss, RTT min/max exactly, avg and jitter within [min,max] / [0,max-min] up to floating-point rounding of the mean (8n+8 ulp), permutation invariance of the order-insensitive statistics (all permutations for <=6 samples, 20 shuffles beyond), fresh pairwise-distinct ids over the whole check, the published JSON key-path set, and decode(encode(doc)) == doc; the documents whole RunTraceroute requests return over the simulated wire (runs only, samples only, both; reached and unreached destinations) go through the same oracle. " +
 			"distinct_nontrivial counts distinct (runs, max hops bucket, samples bucket, positive-sample bucket) shapes of checked documents; small documents are enumerated exhaustively",
 		Workers:       16,
 		MinNontrivial: 30,
@@ -383,9 +388,66 @@ func checkC16() fw.Check {
 					c.Nontrivial(fmt.Sprintf("large/%d", i))
 				}})
 			}
+			// finished documents as RunTraceroute hands them out (simulated wire): every (runs, samples) shape a request can
+			// ask for, including samples only and runs only, reached / unreached destinations
+			for i, qe := range [][2]int{{0, 3}, {1, 0}, {2, 4}, {0, 1}, {3, 0}, {1, 1}, {0, 6}, {3, 3}} {
+				for j, proto := range []string{"udp", "icmp", "tcp"} {
+					i, j, qe, proto := i, j, qe, proto
+					if tier != "thorough" && (i+j)%3 != 0 {
+						continue
+					}
+					id := fmt.Sprintf("C16/request/%s/q%d-e%d", proto, qe[0], qe[1])
+					cases = append(cases, fw.Case{ID: id, Bubble: true, Run: func(c *fw.Ctx) { runC16Request(c, id, proto, qe[0], qe[1], (i+j)%4 != 3) }})
+				}
+			}
 			return cases
 		},
 	}
+}
+
+// runC16Request: the document a whole request returns (not one the harness assembled) goes through the same oracle.
+func runC16Request(c *fw.Ctx, id, proto string, q, e2e int, reach bool) {
+	resetProcessState()
+	v := map[string]refmatch.Variant{"udp": refmatch.VariantByName("udp4"), "icmp": refmatch.VariantByName("icmp4"), "tcp": refmatch.VariantByName("syn")}[proto]
+	target := drive.TargetFor(v, 40+c.Worker)
+	params := traceroute.TracerouteParams{Hostname: target.String(), Port: 33434, Protocol: proto, MinTTL: 1, MaxTTL: 5, Delay: 10, Timeout: 200 * time.Millisecond,
+		TCPMethod: traceroute.TCPConfigSYN, TracerouteQueries: q, E2eQueries: e2e}
+	env, err := newReqEnv(c, params, target, 33434, false)
+	if err != nil {
+		c.Inconclusive(err.Error())
+		return
+	}
+	defer env.close()
+	env.modelFor = func(k int, e *simEnv) *pathModel {
+		m := flowPath(k, e, 3, reach, time.Duration(1+k)*time.Millisecond)
+		return m
+	}
+	out, rerr := env.run(context.Background())
+	if rerr != nil || out == nil {
+		c.Violate("C16", "request-failed", fmt.Sprintf("%s: fault-free request: result=%v err=%v", id, out != nil, rerr), nil)
+		return
+	}
+	if len(out.Traceroute.Runs) != q || len(out.E2eProbe.RTTs) != e2e {
+		c.Inconclusive(fmt.Sprintf("%s: %d runs and %d samples came back (C15 owns the counts)", id, len(out.Traceroute.Runs), len(out.E2eProbe.RTTs)))
+		return
+	}
+	checkDoc(c, id+" (document returned by RunTraceroute)", out, true)
+	// and its JSON form decodes to the same values
+	b, err := json.Marshal(out)
+	if err != nil {
+		c.Violate("C16", "json-encode", fmt.Sprintf("%s: %v", id, err), nil)
+		return
+	}
+	var back result.Results
+	if err := json.Unmarshal(b, &back); err != nil {
+		c.Violate("C16", "json-decode", fmt.Sprintf("%s: %v", id, err), nil)
+		return
+	}
+	if diff := equalDocs(out, &back); diff != "" {
+		c.Violate("C16", "json-roundtrip", fmt.Sprintf("%s: decode(encode(document)) differs: %s", id, diff), nil)
+	}
+	c.Nontrivial(fmt.Sprintf("request/%s/q%d-e%d/reach%v", proto, q, e2e, reach))
+	c.Count("request_documents_checked", 1)
 }
 
 func cloneDoc(d *result.Results) *result.Results {
